@@ -56,6 +56,39 @@ CHECKS["C11"] = dict(
    design="5/C11", technique="Coq proofs of the backend search loops with an oracle; history fuzzing against enumeration for the cache layer",
    note="Trusted: Coq kernel; truthfulness of Z3; extraction + driver; the cache layer is outside the proved model.")
 
+CHECKS["C08"] = dict(
+   text="Machine-checked proof (Coq) over the AST/construction model, for every expression, replacement map, case list, switch table and "
+        "assignment: replace_dict keeps the value when keys and images agree (C08_replace_equiv) and, for variable keys, yields exactly "
+        "the original evaluated with the variables bound to their images, simultaneously (C08_replace_vars, C08_replace_var); ite_cases "
+        "takes the first case whose condition holds (C08_ite_cases); ite_dict returns d[i] or the default for arbitrary integer keys "
+        "(C08_ite_dict); reverse_ite_cases reports cases of which exactly one holds, with the expression's value (C08_reverse_ite_cases); "
+        "chop/get_bytes are the documented Extract slices (C08_chop, C08_get_bytes); excavate_ite is an equivalence (C08_excavate). "
+        "Tie: the extracted model runs next to the real functions and results are compared structurally. canonicalize, identical and "
+        "burrow_ite have no theorem: they, and every other function again, are judged directly against the enumeration of all 4096 "
+        "assignments (testing).",
+   design="5/C08", technique="Coq proofs over a hand-written model of replace.py / bool.py / bv.py / ite_relocation.py; structural result correspondence; enumeration",
+   note="Trusted: Coq kernel; Model/Rewrite.v (hand-written) tied by result comparison; object identity = structural equality; "
+        "annotations not modelled. Known finding: BV.identical compares VSA abstractions. Two defects repaired (ite_dict key order, burrow_ite).")
+CHECKS["C21"] = dict(
+   text="Machine-checked proof (Coq), every width and every operand: strided-interval add is sound (C21_add); sub and neg are sound when "
+        "the subtracted interval's upper bound is one of its members (C21_sub, C21_neg) and NOT otherwise (C21_sub_unaligned_refuted, "
+        "witness {0} - 2[0,1] at 2 bits); normalisation keeps every member (C21_normalize). The model's record-level operations call "
+        "the integer helpers re-translated from strided_interval.py on every run and are compared result-for-result with the real code. "
+        "All other transfer functions (mul, div, mod, bitwise, shifts, extension, extraction, concat, comparisons) are NOT modelled: "
+        "they are swept directly -- exhaustively at widths 1-2 (1-3 in the thorough tier), sampled above -- and are unsound on the "
+        "pinned tree in 23 operations; those are known findings identified by (operation, input).",
+   design="5/C21", technique="Coq soundness proofs for add/sub/neg over translated helpers; exhaustive small-width sweep of the real code for the rest",
+   note="Trusted: Coq kernel; tools/py2coq.py; Model/SI.v hand-written; sweep oracle = member enumeration from the definition. "
+        "Most of this property is decided by testing, not proof; the known-findings list is large (known/C21.txt.gz).")
+CHECKS["C22"] = dict(
+   text="Machine-checked proof (Coq): cardinality equals the number of members for every width (C22_cardinality) and the executable member "
+        "list is the member set (C22_members). Union/least_upper_bound/pseudo_join, intersection, widen, eval, min, max and solution are "
+        "NOT modelled: they are swept directly on the real code (all intervals and pairs of width 1-2, 1-3 thorough, samples above); "
+        "widen, intersection, solution, signed eval and min/max on intervals with a non-member upper bound fail on the pinned tree and are "
+        "known findings identified by (operation, input).",
+   design="5/C22", technique="Coq proof of cardinality; exhaustive small-width sweep of the real joins/meets/queries",
+   note="Trusted: Coq kernel; Model/SI.v; sweep oracle = member enumeration from the definition. Mostly testing, not proof.")
+
 REASONS = {}
 DEFAULT_REASON = "not claimed yet: its Coq model and correspondence harness are not built in this snapshot (see DESIGN.md section 10 for the order); no other technique is substituted"
 
